@@ -12,10 +12,14 @@ NamesUpTo(n, A) == {[abs |-> a, segs |-> s] : a \in A, s \in SeqsUpTo(n)}
 AllNames == NamesUpTo(MaxSeg, {FALSE})
 AllCMapSites == {"enc", "cmapname", "usecmap", "regord"}
 NoSites == {}
-AllImageCases == {[init |-> i, draws |-> d] : i \in SUBSET {-1, 0, 1}, d \in 1..2}
-FewImageCases == {[init |-> {}, draws |-> 2], [init |-> {-1, 1}, draws |-> 2]}
+IC(i, d) == [init |-> i, draws |-> d, ext |-> "bmp", src |-> "xobj"]
+AllImageCases == {IC(i, d) : i \in SUBSET {-1, 0, 1}, d \in 1..2}
+FewImageCases == {IC({}, 2), IC({-1, 1}, 2)}
+\* every way the image dictionary can fill the extension x XObject / inline image x one or two exports
+ExtKinds == {"raw", "neg", "csill", "filterill", "illclean", "lead1", "mid1", "leadW"}
+ExtImageCases == {[init |-> {}, draws |-> d, ext |-> e, src |-> s] : d \in 1..2, e \in ExtKinds, s \in {"xobj", "inline"}}
 NoImageCases == {}
-HalfImageCases == {[init |-> i, draws |-> 2] : i \in SUBSET {-1, 0, 1}}
+HalfImageCases == {IC(i, 2) : i \in SUBSET {-1, 0, 1}}
 ImageNames == NamesUpTo(MaxSegImage, BOOLEAN)
 ImageNamesRel == NamesUpTo(MaxSegImage, {FALSE})
 ====
